@@ -393,6 +393,58 @@ def shard_frames(arg):
     return acc
 
 
+RPE_PARAMS = [("f", 1, False, 0.1), ("f", 3, False, 0.1), ("f", 2, True, 0.1),
+              ("m", 2.0, False, 0.1), ("m", 1.0, True, 0.5),
+              ("d", 90.0, True, 0.1), ("f", 40, False, 0.1)]
+
+
+def run_rpe_object(case):
+    """the selection of an RPE object follows its (public) parameters as they
+    are when process_data() runs: an object evaluated with one set and then
+    given another selects like a fresh object with the second set"""
+    from evo.core import metrics, filters
+    from evo.core.units import Unit
+    U = {"f": Unit.frames, "m": Unit.meters, "d": Unit.degrees}
+    poses = poses_from_steps([1, 1, 2, 0, 1, 1, 3, 1, 0, 2, 1, 1])
+    t = common.make_traj([P[:3, :3] for P in poses],
+                         [P[:3, 3] for P in poses], None, "se3")
+
+    def run(m):
+        try:
+            with common.quiet():
+                m.process_data((t, t))
+            return ("ok", [int(i) for i in m.delta_ids], len(m.error))
+        except filters.FilterException:
+            return ("no-pairs", None, None)
+    u1, d1, ap1, tol1 = RPE_PARAMS[case["first"]]
+    u2, d2, ap2, tol2 = RPE_PARAMS[case["second"]]
+    rel = metrics.PoseRelation.translation_part
+    m = metrics.RPE(rel, d1, U[u1], tol1, ap1)
+    run(m)
+    m.delta, m.delta_unit, m.all_pairs, m.rel_delta_tol = d2, U[u2], ap2, tol2
+    got = run(m)
+    want = run(metrics.RPE(rel, d2, U[u2], tol2, ap2))
+    if got != want:
+        return ["RPE object evaluated with %s and then set to %s selects %s, "
+                "a fresh object with %s selects %s" %
+                (RPE_PARAMS[case["first"]], RPE_PARAMS[case["second"]],
+                 got[:2], RPE_PARAMS[case["second"]], want[:2])]
+    return []
+
+
+def shard_rpe_object(cases):
+    acc = Acc()
+    for case in cases:
+        msgs = run_rpe_object(case)
+        acc.count("evaluations")
+        acc.count("transitions", 3)
+        acc.count("nontrivial")
+        acc.outcome("rpe-object")
+        if msgs:
+            acc.violation("rpe-object", msgs[0], case, {"kind": "rpe-object"})
+    return acc
+
+
 def run(ctx):
     maxp = ctx.pick(7, 8)  # poses for the metre grid
     maxa = ctx.pick(5, 6)  # poses for the angle grid
@@ -408,6 +460,9 @@ def run(ctx):
     acc.merge(pmap_acc(ctx, __name__, "shard_frames", [0]))
     acc.merge(pmap_acc(ctx, __name__, "shard_large",
                        [[n] for n in ctx.pick((130, 250), (130, 250, 1000))]))
+    acc.merge(pmap_acc(ctx, __name__, "shard_rpe_object", [[
+        {"first": a, "second": b} for a in range(len(RPE_PARAMS))
+        for b in range(len(RPE_PARAMS)) if a != b]]))
     acc.counters["states"] = acc.counters["evaluations"]
     acc.rule = (
         "metres: all step sequences of 2..%d poses with step lengths "
@@ -427,4 +482,6 @@ def run(ctx):
 
 
 def replay(part, case):
+    if part == "rpe-object":
+        return run_rpe_object(case)
     return run_case(case)[0]
